@@ -13,7 +13,8 @@ JSON (integers as decimal strings, bytes and UTF-8 texts as hex):
   owners {"kind":"list"|"oset","tagged":bool,"xs":[hex]}
   params {"operator","vrf","pledge","cost","margin":[n,d],"ra","owners","relays":null|[relay],
           "metadata":null|{"url":hex,"hash":hex},"id":null|hex}
-  ctor params: "margin" is the argument pair of `Fraction(n, d)`, "owners" the argument of `OrderedSet(...)`, relays are ctor relays. -/
+  ctor params: "margin" is the argument pair of `Fraction(n, d)`, "owners" the argument of `OrderedSet(...)`, relays are ctor
+  relays (or null: `__post_init__` makes it []). -/
 
 namespace Pyc.Driver.PoolDrv
 open Lean Pyc.Driver Pyc.Cbor Pyc.Codec Pyc.Pool
@@ -136,8 +137,9 @@ def jParams (ctor : Bool) (j : Json) : R (Option PoolParams) := do
   let owners ← jOwners ctor (← j.getObjVal? "owners")
   match margin?, relays? with
   | some margin, some relays =>
-    pure (some ⟨← getBytes j "operator", ← getBytes j "vrf", ← getInt j "pledge", ← getInt j "cost", margin,
-      ← getBytes j "ra", owners, relays, metadata, id⟩)
+    let p : PoolParams := ⟨← getBytes j "operator", ← getBytes j "vrf", ← getInt j "pledge", ← getInt j "cost", margin,
+      ← getBytes j "ra", owners, relays, metadata, id⟩
+    pure (some (if ctor then postInit p else p))          -- `PoolParams.__post_init__`
   | _, _ => pure Option.none
 
 def ofParams (p : PoolParams) : Json :=
